@@ -3,6 +3,7 @@
 //! canonicalised output) for the Lean driver.  See /verif/DESIGN.md section 5.
 mod c06;
 mod c07;
+mod c10;
 mod c11;
 mod c12;
 mod c13;
@@ -22,8 +23,63 @@ mod sparse;
 mod synth;
 mod webprun;
 
+use std::alloc::{GlobalAlloc, Layout, System};
 use std::io::Write;
-use std::sync::atomic::{AtomicBool, Ordering};
+use std::sync::atomic::{AtomicBool, AtomicUsize, Ordering};
+
+/// counting global allocator (C10): current and peak live heap bytes
+pub struct Counting;
+pub static HEAP_CUR: AtomicUsize = AtomicUsize::new(0);
+pub static HEAP_PEAK: AtomicUsize = AtomicUsize::new(0);
+
+fn heap_add(n: usize) {
+    let c = HEAP_CUR.fetch_add(n, Ordering::Relaxed) + n;
+    HEAP_PEAK.fetch_max(c, Ordering::Relaxed);
+}
+
+unsafe impl GlobalAlloc for Counting {
+    unsafe fn alloc(&self, l: Layout) -> *mut u8 {
+        let p = System.alloc(l);
+        if !p.is_null() {
+            heap_add(l.size());
+        }
+        p
+    }
+    unsafe fn alloc_zeroed(&self, l: Layout) -> *mut u8 {
+        let p = System.alloc_zeroed(l);
+        if !p.is_null() {
+            heap_add(l.size());
+        }
+        p
+    }
+    unsafe fn dealloc(&self, p: *mut u8, l: Layout) {
+        System.dealloc(p, l);
+        HEAP_CUR.fetch_sub(l.size(), Ordering::Relaxed);
+    }
+    unsafe fn realloc(&self, p: *mut u8, l: Layout, new_size: usize) -> *mut u8 {
+        let q = System.realloc(p, l, new_size);
+        if !q.is_null() {
+            if new_size >= l.size() {
+                heap_add(new_size - l.size());
+            } else {
+                HEAP_CUR.fetch_sub(l.size() - new_size, Ordering::Relaxed);
+            }
+        }
+        q
+    }
+}
+
+#[global_allocator]
+static ALLOC: Counting = Counting;
+
+/// run `f` and return the peak growth of the live heap while it ran (single-threaded harness)
+pub fn measure_heap<T, F: FnOnce() -> T>(f: F) -> (T, usize) {
+    let base = HEAP_CUR.load(Ordering::Relaxed);
+    HEAP_PEAK.store(base, Ordering::Relaxed);
+    let r = f();
+    let peak = HEAP_PEAK.load(Ordering::Relaxed);
+    (r, peak.saturating_sub(base))
+}
 
 /// set while the code under test runs inside catch_unwind: its panics are results, not harness bugs
 pub static QUIET: AtomicBool = AtomicBool::new(false);
@@ -129,6 +185,7 @@ fn main() {
             "C06" => c06::replay(&prop, &line, &mut out),
             "C07" | "C08" => c07::replay(&prop, &line, &mut out),
             "C11" => c11::replay(&line, &mut out),
+            "C10" => c10::replay(&line, &mut out),
             "C12" => c12::replay(&line, &mut out),
             "C13" => c13::replay(&line, &mut out),
             "C14" => c14::replay(&line, &mut out),
@@ -153,6 +210,7 @@ fn main() {
         "C06" => c06::run(&prop, &opts, &mut out),
         "C07" | "C08" => c07::run(&prop, &opts, &mut out),
         "C11" => c11::run(&opts, &mut out),
+        "C10" => c10::run(&opts, &mut out),
         "C12" => c12::run(&opts, &mut out),
         "C13" => c13::run(&opts, &mut out),
         "C14" => c14::run(&opts, &mut out),
